@@ -190,15 +190,18 @@ def main():
                 pairing = P.PairingToZd(pairing=P.RosenbergStrong(), dimension=3)
             dom = P.Domain(boundary=P.Boundary(), grid=grid, pairing=pairing)
             sm = P.StatesManager(pairing=pairing, domain=dom, grid=grid)
-            outs, exhausted = [], 0
-            for x in range(10 * int(np.prod([Ls[i] + Rs[i] + 1 for i in range(d)])) + 10):
-                st, brk = sm.project_index_to_state_increment(x)
-                if brk:
-                    exhausted = 1
-                    break
-                st = [int(st)] if d == 1 else [int(v) for v in st]
-                outs.append(st)
-            ev.append({"e": "Enum", "Ls": list(Ls), "Rs": list(Rs), "out": outs, "exhausted": exhausted, "ok": 1})
+            for max_logged in (-1, 3, 12, 20):
+                # the call pattern of the inversion sampler: consecutive indices, the storage cap passed along
+                sm = P.StatesManager(pairing=pairing, domain=dom, grid=grid)
+                outs, exhausted = [], 0
+                for x in range(10 * int(np.prod([Ls[i] + Rs[i] + 1 for i in range(d)])) + 10):
+                    st, brk = sm.project_index_to_state_increment(x, max_logged) if max_logged >= 0 else sm.project_index_to_state_increment(x)
+                    if brk:
+                        exhausted = 1
+                        break
+                    st = [int(st)] if d == 1 else [int(v) for v in st]
+                    outs.append(st)
+                ev.append({"e": "Enum", "Ls": list(Ls), "Rs": list(Rs), "out": outs, "exhausted": exhausted, "ok": 1, "cap": max_logged})
         except Exception as ex:
             ev.append({"e": "Enum", "Ls": list(Ls), "Rs": list(Rs), "out": [], "exhausted": 0, "ok": 0, "what": type(ex).__name__})
         add("enum", ev, signed=1, dim=d)
